@@ -188,6 +188,9 @@ def run(chk: Check) -> None:
     missing = [n for n in ("CBORSerializer", "MessagePackSerializer") if n not in per_entry]
     if missing:
         chk.not_covered.append("optional serializers not importable offline: " + ", ".join(missing))
+    from .. import burst
+
+    burst.report(chk, "round trip")
     chk.assumptions += [
         "value equality between the delivered object and the packet sent is computed by the harness (Python ==) and asserted by the specification",
         "valid packets are those the serializer's own contract round-trips (e.g. non-empty lines without the newline sequence)",
